@@ -7,6 +7,10 @@
    are what the four other renderers return for the table, [body] is the text
    renderer past its EmptyDecoration guard; "the table is good" is the
    hypothesis that those render ([renders], C05-C08's and C03's business).
+   [usable_registry]: every registered decoration is one the text renderer
+   accepts - anything but the zero value (EmptyDecoration): Populate()d,
+   boxless, or written field by field with whatever fields the application
+   chose (the harness registers all of these kinds).
    sort.Strings is the model's insertion sort, validated against the
    implementation's listing on every run.
 
